@@ -269,4 +269,23 @@ def run_case(case):
     return ok(nsets >= 3 and bool(stale or obs['restarts'] or hidden_published), classes, {'sets_at_K': nsets, 'stale_requests': stale, 'restarts': obs['restarts']})
 
 
-PARTS = [Part('delivery', run_case, strategy=case_strategy, examples={'quick': 400, 'thorough': 8000})]
+def run_low(case):
+    """Receiver-API level (bare ZMQSender / ZMQReceiver): long recv() calls, clean close + come-back of a publisher, forwarded ids."""
+    from props import lowcommon
+    out, sets = lowcommon.run(case)
+    classes = lowcommon.classes_of(case, out)
+    if out['raised']:
+        return bad(f'{out["raised"][0][0]} raised {out["raised"][0][1]}', f'lowlevel-raised:{out["raised"][0][1].split(":")[0]}', classes)
+    v = lowcommon.order_and_identity(case, out, sets)
+    if v:
+        return bad(v[0], 'lowlevel:' + v[1], classes)
+    return ok(len(sets) >= 5 and out['restarts'] > 0, classes, {'sets': len(sets), 'restarts': out['restarts']})
+
+
+def low_strategy(tier):
+    from simnet import lowlevel
+    return lowlevel.low_case(tier, balance=False, max_pubs=2)
+
+
+PARTS = [Part('delivery', run_case, strategy=case_strategy, examples={'quick': 400, 'thorough': 8000}, share=0.7),
+         Part('receiver_api', run_low, strategy=low_strategy, examples={'quick': 150, 'thorough': 3000}, share=0.3)]
